@@ -14,7 +14,7 @@ SHARDS = {"quick": 16, "thorough": 16}
 WATCHDOG = {"quick": 1200, "thorough": 7200}
 FLOORS = {
     "quick": {"distinct_nontrivial": 300000, "K4_evaluations": 15000, "tuples_invalid": 300000,
-              "tuples_valid": 10000, "scorers_with_history": 60},
+              "tuples_valid": 10000, "scorers_with_history": 60, "inner_cost_tuples": 5000},
     "thorough": {"distinct_nontrivial": 500000, "K4_evaluations": 50000, "tuples_valid": 40000},
 }
 ANCHORS = [
@@ -37,7 +37,8 @@ RULE = (
     "width, ragged, lists). Oracle: validity predicate from the statement -> invalid must raise "
     "ValueError, valid must return the model value (interval) of exactly that cut; contract K4 "
     "checks the soundness half on every evaluate call. Half of the scorer objects were fitted to a "
-    "series of another length and evaluated once before being fitted to X. Non-trivial = (scorer kind, n, p, tuple) "
+    "series of another length and evaluated once before being fitted to X; the cost object handed to "
+    "an adapter (kept and fitted by it) is judged by the same oracle over its own box. Non-trivial = (scorer kind, n, p, tuple) "
     "that is invalid, or valid and value-checked; distinct by that key."
 )
 ASSUMPTIONS = [
@@ -96,11 +97,11 @@ def exec_case(ctx, r):
     label = f"{short(spec)} n={n} p={p}"
     I.drain()
 
-    def judge(arg, cut_rows, how):
+    def judge(arg, cut_rows, how, target=None, desc=desc, label=label):
         """cut_rows: list of integer tuples the argument denotes (for the oracle)."""
         ctx.case()  # one case = one evaluate() call judged by the validity/value oracle
         valid = all(SM.cut_is_valid(desc, c, n, p) for c in cut_rows)
-        status, val = _call(scorer, arg)
+        status, val = _call(scorer if target is None else target, arg)
         if not valid:
             ctx.stat("tuples_invalid", len(cut_rows))
             if status == "ok":
@@ -205,6 +206,32 @@ def exec_case(ctx, r):
             elif status == "other":
                 ctx.violation(sub, "wrong-exception-malformed",
                               f"{label}: evaluate({how}) raised {val}", r, {"how": how})
+
+    # 5. the cost the caller handed to an adapter -------------------------------------------
+    # ChangeScore(cost) / Saving(baseline_cost) / LocalAnomalyScore(cost) keep the caller's own cost
+    # object and fit it: it is a public, fitted interval scorer and its evaluate must keep rejecting
+    # what it cannot score, whatever the adapter does with it internally.
+    inner_key = next((a for a in ("cost", "baseline_cost") if isinstance(spec.get("kw", {}).get(a), dict)), None)
+    inner = getattr(scorer, inner_key, None) if inner_key else None
+    if inner is not None and getattr(inner, "_is_fitted", False):
+        idesc = desc_from_spec(spec["kw"][inner_key])
+        ilabel = f"{label} -> the caller's own {short(spec['kw'][inner_key])}"
+        ibox = list(itertools.product(range(-2, n + 3), repeat=2))
+        for c in ibox:
+            judge(np.array([c], dtype=np.int64), [c], "int64 row", target=inner, desc=idesc, label=ilabel)
+        ctx.stat("inner_cost_tuples", len(ibox))
+        v2 = next((c for c in ibox if SM.cut_is_valid(idesc, c, n, p)), None)
+        if v2 is not None:
+            for how, arg in [("float64", np.array([v2], dtype=float)), ("too wide", np.array([v2 + (n,)], dtype=np.int64)),
+                             ("3-D", np.array([[v2]], dtype=np.int64))]:
+                status, val = _call(inner, arg)
+                ctx.stat("malformed_args")
+                if status == "ok":
+                    ctx.violation(sub, "accepted-malformed", f"{ilabel}: evaluate({how}) returned "
+                                  f"{np.asarray(val).tolist()!r:.120}", r, {"how": how})
+                elif status == "other":
+                    ctx.violation(sub, "wrong-exception-malformed", f"{ilabel}: evaluate({how}) raised {val}",
+                                  r, {"how": how})
 
     # contract K4: soundness half observed on every evaluate call of this case ---------
     for h in I.drain():
